@@ -336,14 +336,8 @@ func (s stmt) hiddenA(sessionDB string) []string {
 			why = append(why, "C06-F3")
 		}
 	}
-	if s.A.Schema%4 == 3 {
-		// schema written in another letter case than configured (DB.t): the rule map is keyed by
-		// the configured database name, the analysis compares the lower-cased schema
-		why = append(why, "C06-F8")
-	}
-	if s.A.Case%3 != 0 {
-		why = append(why, "C06-F1")
-	}
+	// the letter case of the table or schema name hides nothing: the classifiers of the fixed
+	// C06-F1 / C06-F8 are gone, a bypass through such a name is a violation
 	return why
 }
 
@@ -371,16 +365,12 @@ func (s stmt) hiddenB(sessionDB string) []string {
 	switch k {
 	case kSelectSubqWhere, kSelectUnion, kDeleteSubq:
 		// a schema-qualified A switches the database used for every later unqualified name
-		if s.A.Schema%4 != 0 && s.B.Schema%4 == 0 && []string{"", "db", "db2", "DB"}[s.A.Schema%4] != sessionDB {
+		if s.A.Schema%4 != 0 && s.B.Schema%4 == 0 && []string{"", "db", "db2", "db"}[s.A.Schema%4] != sessionDB {
 			why = append(why, "C06-F7")
 		}
 	}
-	if s.B.Schema%4 == 3 {
-		why = append(why, "C06-F8")
-	}
-	if s.B.Case%3 != 0 {
-		why = append(why, "C06-F1")
-	}
+	// the letter case of the table or schema name hides nothing: the classifiers of the fixed
+	// C06-F1 / C06-F8 are gone, a bypass through such a name is a violation
 	return why
 }
 
@@ -426,19 +416,19 @@ func checkCase(c c06Case) (o pbt.Outcome) {
 		ns.ShardRules = shardRules()
 	})
 	if err != nil {
-		o.Skip = "fixture: " + err.Error()
+		o.Skip = "fixture could not be set up (inconclusive)"
 		return
 	}
 	defer env.Close()
 	rt, err := router.NewRouter(env.NS)
 	if err != nil {
-		o.Skip = "router: " + err.Error()
+		o.Skip = "router could not be built (inconclusive)"
 		return
 	}
 	sdb := sessionDBs[c.SessionDB%len(sessionDBs)]
 	cl, err := env.Dial("rw", sdb, 0)
 	if err != nil {
-		o.Skip = "dial: " + err.Error()
+		o.Skip = "client could not connect to the proxy (inconclusive)"
 		return
 	}
 	defer cl.Close()
@@ -452,7 +442,11 @@ func checkCase(c c06Case) (o pbt.Outcome) {
 		class := analysis(rt, sdb, fwd)
 		r, err := cl.Exec(text)
 		if err != nil {
-			o.Skip = fmt.Sprintf("session broke on %q: %v", text, err)
+			o.Skip = "transport error towards the proxy (inconclusive)"
+			return
+		}
+		if r.Err != nil && routefix.InfraTrouble(r.Err.Message) {
+			o.Skip = "the proxy reported backend connection trouble (inconclusive)"
 			return
 		}
 		var verbatim, other []fakemysql.Event
